@@ -11,11 +11,20 @@ RULE = ("operation sequences on 1-3 sections of one output at terminal width 10:
         "<fg=red>..</>, a tag around two words, an unknown tag, an escaped '\\<', an escaped whole tag, a tag spanning a line break, "
         "texts whose raw length exceeds the width while the visible length does not / equals it / exceeds it too, an empty line "
         "between tagged lines, the empty text), section.indent(0|2|3|7|12) so that a raw text that fits no longer fits when indented "
-        "and an empty line is written under an indentation wider than the terminal, clear(), clear(1), clear(2); all sequences of the plain alphabet up to length 3 (quick) / 4 (thorough) after creating the sections, all "
-        "sequences of a tagged-and-indented alphabet up to length 3/4 (one section) and 3 (two sections), random ones up to length "
-        "40 over everything with sections created on the way, in ANSI and in plain mode; the emitted bytes (SGR sequences "
-        "included) are replayed on an independent terminal emulator; the class of the theorems (good markup) is decided on both "
-        "sides and compared; non-trivial = touches >= 2 sections or a wrapped line or a tag or an indentation; distinct by op sequence")
+        "and an empty line is written under an indentation wider than the terminal, clear(), clear(1), clear(2); all sequences of "
+        "the plain alphabet up to length 3 (quick) / 4 (thorough) after creating the sections, all sequences of a "
+        "tagged-and-indented alphabet up to length 3/4 (one section) and 3 (two sections); all sequences up to length 5 (quick) / 6 "
+        "(thorough) of an alphabet in which output.section() and output.indent(0|3) - the indentation of the OUTPUT the sections "
+        "belong to, which a section created afterwards starts with - are operations like the others (starting with no section at "
+        "all; write_line of 1 / 11 / 20 cells and of two lines, overwrite, clear(), clear(1), section.indent(2)); random ones up to "
+        "length 40 over everything (also 20 / 30-cell lines, 7 / 14 / 21, 80 / 160, lines of white space only, output.indent) with "
+        "sections created on the way, at widths {1, 7, 10, 80}, in ANSI and in plain mode; the emitted bytes (SGR sequences "
+        "included) are replayed on an independent terminal emulator that REJECTS what it does not model (ESC[2J is not 'erase "
+        "below'); the screen must show the stacked contents AND every cell in the look (SGR pen) of its own line, the pen left at "
+        "default; a run in which a call raises is compared up to the failing call; the class of the theorems (good markup) is "
+        "decided on both sides and compared; outside it the stack claim is dropped only where a partial clear really cut a tag that "
+        "spans a line break; non-trivial = touches >= 2 sections or a wrapped line or a tag or an indentation; distinct by op "
+        "sequence and width")
 TRUSTED = ["Base/Term.v as the terminal (infinite height, deferred auto-wrap, LF implies CR, an SGR sequence occupies no cell); "
            "tabs and wide characters in section texts are outside the model (a character is one cell); pastel is modelled by "
            "Model/Markup.v (tied by C11 and by this run)"]
@@ -37,8 +46,18 @@ TEXTS = ["a", "b" * 9, "c" * 10, "d" * 11, "e" * 23, "f\n" + "g" * 12,
          "<u>" + "m" * 10 + "</u><error>!</error>",   # 16 visible 11
          "",                                   # 17 the empty text
          "<info>a\nb</info>",                  # 18 a tag spanning a line break (outside the class)
-         "<fg=cyan;options=bold>1234567</> <b>9</b>"]  # 19 visible 9 (+ indentation 2: wraps)
+         "<fg=cyan;options=bold>1234567</> <b>9</b>",  # 19 visible 9 (+ indentation 2: wraps)
+         "h" * 20,                             # 20 exactly two rows at width 10
+         "i" * 30,                             # 21 exactly three rows
+         " ",                                  # 22 a line of white space only: not empty, so it is indented
+         "  \nx",                              # 23
+         "x\n \ny",                           # 24
+         "j" * 7, "k" * 14, "l" * 21,          # 25-27 one / two / three rows at width 7
+         "n" * 80, "o" * 160,                  # 28, 29 one / two rows at width 80
+         "<b>" + "p" * 20 + "</b>",            # 30 visible exactly two rows
+         "q" * 19 + "\n" + "r" * 21]           # 31 just below / above two rows
 PLAIN_T = range(6)
+WIDTHS = [1, 7, 10, 80]
 TAGGED_SMALL = [6, 7, 8, 10, 12, 13, 17]
 INDENTS = [0, 2, 3, 7, 12]
 
@@ -88,6 +107,27 @@ def ops_all(nsec):
     return ops
 
 
+def ops_created(nsec):
+    """the alphabet of the part where section() and the parent's indent() are operations like the others"""
+    ops = [[5, 3], [5, 0]]
+    if nsec < 3:
+        ops.append([0])
+    for i in range(nsec):
+        ops += [[1, i, 0, 1], [1, i, 3, 1], [1, i, 20, 1], [1, i, 5, 1], [2, i, 1], [3, i, None], [3, i, 1], [4, i, 2]]
+    return ops
+
+
+def explore(alpha, depth, nsec):
+    """all op sequences of length <= depth over alpha(number of sections so far)"""
+    out = [[]]
+    if depth == 0:
+        return out
+    for o in alpha(nsec):
+        for rest in explore(alpha, depth - 1, nsec + (1 if o[0] == 0 else 0)):
+            out.append([list(o)] + rest)
+    return out
+
+
 def gen(rng, tier, info):
     depth = {"quick": 3, "thorough": 4, "search": 2}[tier]
     nrand = {"quick": 5000, "thorough": 50000, "search": 1500}[tier]
@@ -107,6 +147,15 @@ def gen(rng, tier, info):
                 for ansi in ((1, 0) if k <= 2 else (1,)):
                     cases.append({"ansi": ansi, "ops": [[0]] * nsec + [list(o) for o in seq]})
     n_ex = len(cases)
+    # section() and parent.indent(k) INSIDE the explored alphabet: a section created after writes, under an indentation of
+    # the output it belongs to (Output.section() hands the indentation on)
+    dc = {"quick": 5, "thorough": 6, "search": 3}[tier]
+    for seq in explore(ops_created, dc, 0):
+        if any(o[0] != 5 for o in seq):
+            cases.append({"ansi": 1, "ops": seq})
+            if len(seq) <= 3:
+                cases.append({"ansi": 0, "ops": seq})
+    n_cr = len(cases) - n_ex
     for _ in range(nrand):
         ops, n = [[0]], 1
         for _ in range(rng.randint(4, 40)):
@@ -114,13 +163,24 @@ def gen(rng, tier, info):
             if r < 0.08 and n < 4:
                 ops.append([0])
                 n += 1
+            elif r < 0.13:
+                ops.append([5, rng.choice(INDENTS)])
             else:
                 ops.append(list(rng.choice(ops_all(n))))
-        cases.append({"ansi": 1 if rng.random() < 0.85 else 0, "ops": ops})
+        c = {"ansi": 1 if rng.random() < 0.85 else 0, "ops": ops}
+        w = rng.choice(WIDTHS + [10, 10])
+        if w != W:
+            c["w"] = w
+        cases.append(c)
     info["exhaustive"] = True
-    info["distribution"] = {"exhaustive_plain": n_plain, "exhaustive_tagged_indented": n_ex - n_plain, "random": nrand, "depth": depth,
-                            "width": W}
+    info["distribution"] = {"exhaustive_plain": n_plain, "exhaustive_tagged_indented": n_ex - n_plain,
+                            "exhaustive_with_create_and_parent_indent": n_cr, "random": nrand, "depth": depth,
+                            "depth_with_create": dc, "widths_exhaustive": [W], "widths_random": WIDTHS}
     return cases
+
+
+def width(c):
+    return c.get("w", W)
 
 
 def sty(tag=None, fg=None, bg=None, attrs=0):
@@ -149,9 +209,11 @@ def wire(c):
             ops.append([2, o[1], S(TEXTS[o[2]])])
         elif o[0] == 3:
             ops.append([3, o[1], [] if o[2] is None else [o[2]]])
-        else:
+        elif o[0] == 4:
             ops.append([4, o[1], o[2]])
-    return [c["ansi"], W, [w_style(s) for s in default_set()], ops]
+        else:
+            ops.append([5, o[1]])
+    return [c["ansi"], width(c), [w_style(s) for s in default_set()], ops]
 
 
 def describe(c):
@@ -164,8 +226,10 @@ def describe(c):
             return "s%d.overwrite(%r)" % (o[1], TEXTS[o[2]])
         if o[0] == 3:
             return "s%d.clear(%s)" % (o[1], "" if o[2] is None else o[2])
+        if o[0] == 5:
+            return "output.indent(%d)" % o[1]
         return "s%d.indent(%d)" % (o[1], o[2])
-    return ("ANSI" if c["ansi"] else "plain") + " width %d: " % W + "; ".join(d(o) for o in c["ops"])
+    return ("ANSI" if c["ansi"] else "plain") + " width %d: " % width(c) + "; ".join(d(o) for o in c["ops"])
 
 
 # ---- the class of the theorems, decided independently of the model (Model/Section.v good_opsb) ----
@@ -212,14 +276,29 @@ def indent_text(n, text):
     return "\n".join((" " * n + s) if s else s for s in text.split("\n"))
 
 
+def _state(secs):
+    return [[[S(l) for l in s.content.split("\n")[:-1]] if s.content else [], s.lines, s._indent] for s in secs]
+
+
+def _screen(data, w):
+    t = termemu.Term(w)
+    t.feed(data)
+    return t
+
+
 def run_impl(c):
-    os.environ["COLUMNS"] = str(W)
+    w = width(c)
+    os.environ["COLUMNS"] = str(w)
     from clikit.io import BufferedIO
     from clikit.formatter import AnsiFormatter, PlainFormatter
     io = BufferedIO(formatter=AnsiFormatter(forced=True) if c["ansi"] else PlainFormatter())
     secs = []
-    try:
-        for o in c["ops"]:
+    failed = None
+    j = 0
+    for o in c["ops"]:
+        # what the stream and the sections look like before the call: when the call raises, the run is told up to here
+        before = (io.fetch_output(), _state(secs))
+        try:
             if o[0] == 0:
                 secs.append(io.output.section())
             elif o[0] == 1:
@@ -228,31 +307,95 @@ def run_impl(c):
                 secs[o[1]].overwrite(TEXTS[o[2]])
             elif o[0] == 3:
                 secs[o[1]].clear(o[2]) if o[2] is not None else secs[o[1]].clear()
-            else:
+            elif o[0] == 4:
                 secs[o[1]].indent(o[2])
-    except Exception as e:  # noqa: a text the formatter refuses; the run ends there on both sides
-        return err(e)
+            else:
+                io.output.indent(o[1])
+        except Exception as e:  # noqa: a text the formatter refuses; the run ends there on both sides
+            failed = err(e)
+            break
+        if o[0] != 5:
+            j += 1
+    if failed is not None:
+        data, state = before
+        done = [x for x in c["ops"] if x[0] != 5][:j]
+        t = _screen(data, w)
+        return [failed[0], failed[1], j, termemu.tokens(data), state, [[S(r) for r in t.screen()], t.r, t.c], 1 if good_ops(done) else 0,
+                _look(t)]
     data = io.fetch_output()
-    t = termemu.Term(W)
-    t.feed(data)
-    contents = [[S(l) for l in s.content.split("\n")[:-1]] if s.content else [] for s in secs]
-    return [0, termemu.tokens(data), [[cs, s.lines, s._indent] for cs, s in zip(contents, secs)],
-            [[S(r) for r in t.screen()], t.r, t.c], 1 if good_ops(c["ops"]) else 0]
+    t = _screen(data, w)
+    return [0, termemu.tokens(data), _state(secs), [[S(r) for r in t.screen()], t.r, t.c], 1 if good_ops(c["ops"]) else 0, _look(t)]
+
+
+def _look(t):
+    """the pens of the screen's cells and the pen the terminal is left with"""
+    return [t.pens(), t.pen]
+
+
+def canon_impl(c, o):
+    return o[:-1]           # the look of the cells is the oracle's business (the model's terminal ignores SGR)
+
+
+_LOOK = {}
+
+
+def look_of(line, w):
+    """cells (character, pen) of one content line of good markup shown alone: a fresh decorating formatter, an own terminal"""
+    k = (line, w)
+    if k not in _LOOK:
+        from clikit.formatter import AnsiFormatter
+        t = termemu.Term(w)
+        t.feed(AnsiFormatter(forced=True).format(line) + "\n")
+        _LOOK[k] = (t.rows[:-1], t.pen)
+    return _LOOK[k]
+
+
+def cut18(ops):
+    """does a partial clear cut a text-18 write ('<info>a' / 'b</info>': a tag that spans a line break) in two, so that the
+    first half stays on record without the second?  Walks the records by line provenance, independent of model and code."""
+    recs = []
+    for o in ops:
+        if o[0] == 0:
+            recs.append([])
+        elif o[0] in (1, 2):
+            if o[0] == 2:
+                recs[o[1]] = []
+            n = len(TEXTS[o[2]].split("\n"))
+            recs[o[1]] += [(o[2], k) for k in range(n)]
+        elif o[0] == 3:
+            if o[2]:
+                if recs[o[1]]:
+                    del recs[o[1]][-o[2]:]
+                    if recs[o[1]] and recs[o[1]][-1] == (18, 0):
+                        return True
+            else:
+                recs[o[1]] = []
+    return False
 
 
 def oracle(c, o):
+    w = width(c)
+    ops = c["ops"]
     if o[0] != 0:
-        # the formatter refused a text: only texts 14 / 18 (a closing tag that meets a foreign style stack) can do that
-        return None if any(op[0] in (1, 2) and op[2] in (14, 18) for op in c["ops"]) else "formatter-raised-on-good-markup"
-    _, toks, secs, (screen, r, col), good = o
+        # the formatter refused a text.  Only a closing tag that meets a foreign style stack can do that: text 14 (an escaped
+        # whole tag) or text 18 (a tag spanning a line break) must have been written BEFORE or BY the call that raised
+        j = o[2]
+        done = [x for x in ops if x[0] != 5][:j + 1]
+        if not any(op[0] in (1, 2) and op[2] in (14, 18) for op in done):
+            return "formatter-raised-on-good-markup"
+        ops = [x for x in ops if x[0] != 5][:j]          # what follows is asked of the calls before it
+        o = [0] + o[3:]
+    _, toks, secs, (screen, r, col), good, (pens, pen) = o
     if not c["ansi"]:
         if any(t[0] not in (0, 1) for t in toks):
             return "control-code-on-plain-output"
         # plain: the visible text of every write, indented, appended
-        exp, inds = "", []
-        for op in c["ops"]:
+        exp, inds, pind = "", [], 0
+        for op in ops:
             if op[0] == 0:
-                inds.append(0)
+                inds.append(pind)
+            elif op[0] == 5:
+                pind = op[1]
             elif op[0] == 4:
                 inds[op[1]] = op[2]
             elif op[0] in (1, 2):
@@ -269,29 +412,39 @@ def oracle(c, o):
             v, _ = visible(unS(l))
             if v is None:
                 return None
-            rows += termemu.wrap_rows(v, W)
+            rows += termemu.wrap_rows(v, w)
         if lines != len(rows):
             return "row-count-disagrees-with-content"
         stack += rows
     got = [unS(x) for x in screen]
-    if not good and any(op[0] in (1, 2) and op[2] == 18 for op in c["ops"]):
-        # outside the class of the theorems: a tag that spans a line break, cut by a partial clear, leaves its style on the
+    if not good and cut18(ops):
+        # outside the class of the theorems: a tag that spans a line break, CUT by a partial clear, leaves its style on the
         # formatter's stack for good (pastel keeps the stack between calls); an escaped tag written under an open style
         # then keeps its backslash on a decorated output (pastel's own rendering, DESIGN.md C20).  The model follows the
-        # code there (the tie is still checked); the stack claim is not made.
+        # code there (the tie is still checked); the stack claim is not made.  Without such a cut it IS made.
         return None
     if got != stack + [""] or r != len(stack) or col != 0:
         return "screen-differs-from-stacked-contents"
+    if good:
+        # ... and it shows them in their own look: every cell has the pen its own line's markup gives it (a style does not
+        # leak from one line or section into the next), and the terminal is left with the default pen
+        want = []
+        for cs, _lines, _ind in secs:
+            for l in cs:
+                rows_l, pen_l = look_of(unS(l), w)
+                want += [[p for _, p in row] for row in rows_l]
+        if pens != want + [[]] or pen != termemu.DEFAULT_PEN:
+            return "screen-shows-contents-in-a-foreign-style"
     return None
 
 
 def nontrivial_key(c, o):
-    used = set(op[1] for op in c["ops"] if op[0] != 0)
-    wrapped = any(op[0] in (1, 2) and len(max(TEXTS[op[2]].split("\n"), key=len)) > W for op in c["ops"])
-    tagged = any(op[0] in (1, 2) and op[2] >= 6 for op in c["ops"])
-    indented = any(op[0] == 4 and op[2] > 0 for op in c["ops"])
+    used = set(op[1] for op in c["ops"] if op[0] not in (0, 5))
+    wrapped = any(op[0] in (1, 2) and len(max(TEXTS[op[2]].split("\n"), key=len)) > width(c) for op in c["ops"])
+    tagged = any(op[0] in (1, 2) and 6 <= op[2] < 20 for op in c["ops"])
+    indented = any(op[0] in (4, 5) and op[-1] > 0 for op in c["ops"])
     if len(used) >= 2 or wrapped or tagged or indented:
-        return [c["ansi"], c["ops"]]
+        return [c["ansi"], width(c), c["ops"]]
     return None
 
 
@@ -299,4 +452,7 @@ def shrink(c):
     ops = c["ops"]
     for i in range(len(ops)):
         if ops[i][0] != 0:
-            yield {"ansi": c["ansi"], "ops": ops[:i] + ops[i + 1:]}
+            d = {"ansi": c["ansi"], "ops": ops[:i] + ops[i + 1:]}
+            if "w" in c:
+                d["w"] = c["w"]
+            yield d
